@@ -12,6 +12,8 @@ package vers
 //@   ensures shape: result == nil ==> len(versString) >= 5 && len(strings.SplitN(versString[5:], "/", 2)) == 2
 //@   ensures prefix: !strings.HasPrefix(versString, "vers:") ==> result != nil                              [C17]
 //@   ensures scheme-charset: strings.HasPrefix(versString, "vers:") && len(strings.SplitN(versString[5:], "/", 2)) == 2 ==> (forall i int :: 0 <= i && i < len(schemeOf(versString)) && !((schemeOf(versString)[i] >= 'a' && schemeOf(versString)[i] <= 'z') || (schemeOf(versString)[i] >= '0' && schemeOf(versString)[i] <= '9')) ==> result != nil)   [C17]
+//@   loop 3 invariant starCount >= 0 && starCount <= rangeindex + 1 && (forall j int :: 0 <= j && j <= rangeindex && strings.TrimSpace(constraintList[j]) == "*" ==> starCount >= 1) && (forall j int :: 0 <= j && j <= rangeindex && strings.TrimSpace(constraintList[j]) != "*" && strings.TrimSpace(constraintList[j]) != "" ==> hasOtherConstraints)
+//@   ensures star-alone: strings.HasPrefix(versString, "vers:") && len(strings.SplitN(versString[5:], "/", 2)) == 2 ==> ((exists i int :: 0 <= i && i < len(strings.Split(strings.SplitN(versString[5:], "/", 2)[1], "|")) && strings.TrimSpace(strings.Split(strings.SplitN(versString[5:], "/", 2)[1], "|")[i]) == "*") ==> ((exists k int :: 0 <= k && k < len(strings.Split(strings.SplitN(versString[5:], "/", 2)[1], "|")) && strings.TrimSpace(strings.Split(strings.SplitN(versString[5:], "/", 2)[1], "|")[k]) != "*" && strings.TrimSpace(strings.Split(strings.SplitN(versString[5:], "/", 2)[1], "|")[k]) != "") ==> result != nil))   [C17]
 //@   ensures printable-ascii: forall i int :: 0 <= i && i < len(versString) && (versString[i] < 32 || versString[i] > 126) ==> result != nil   [C17]
 //@   ensures separator: strings.HasPrefix(versString, "vers:") && len(strings.SplitN(versString[5:], "/", 2)) != 2 ==> result != nil   [C17]
 //@   ensures empty-scheme: strings.HasPrefix(versString, "vers:") && len(strings.SplitN(versString[5:], "/", 2)) == 2 && strings.SplitN(versString[5:], "/", 2)[0] == "" ==> result != nil   [C17]
@@ -78,6 +80,8 @@ package vers
 
 // ---- the generic evaluator rejects a probe the ecosystem rejects
 //@ func contains
+//@   ensures union: result1 == nil ==> result0 == (!(exists i int :: 0 <= i && i < len(parseConstraints(normalizeConstraints(e, constraints).0).0) && parseConstraints(normalizeConstraints(e, constraints).0).0[i].operator == "!=" && e.NewVersion(version).0.Compare(e.NewVersion(parseConstraints(normalizeConstraints(e, constraints).0).0[i].version).0) == 0) && (len(toRanges(e, normalizeConstraints(e, constraints).0).0) == 0 || (exists k int :: 0 <= k && k < len(toRanges(e, normalizeConstraints(e, constraints).0).0) && toRanges(e, normalizeConstraints(e, constraints).0).0[k].Contains(e.NewVersion(version).0))))   [C04]
+//@   ensures member: result1 == nil && result0 && len(toRanges(e, normalizeConstraints(e, constraints).0).0) > 0 ==> (exists k int :: 0 <= k && k < len(toRanges(e, normalizeConstraints(e, constraints).0).0) && toRanges(e, normalizeConstraints(e, constraints).0).0[k].Contains(e.NewVersion(version).0))   [C04]
 //@   ensures invalid-probe: e.NewVersion(version).1 != nil ==> result1 != nil && !result0                  [C17]
 //@   ensures error-is-false: result1 != nil ==> !result0                                                    [C17]
 
@@ -185,3 +189,25 @@ package vers
 //@   loop 3 invariant len(sorted) == rangeindex + 1
 //@   ensures no-more: result1 == nil ==> len(result0) <= len(constraints)   [C16]
 //@   ensures nothing-in-nothing-out: len(constraints) == 0 ==> result1 == nil && len(result0) == 0   [C16]
+
+// ---- pairing of alternating bounds (C04)
+//@ spec isLower(c constraint) bool = c.operator == ">=" || c.operator == ">"
+//@ spec isUpper(c constraint) bool = c.operator == "<=" || c.operator == "<"
+//@ spec pairIv(l constraint, u constraint) interval = mk(interval, l.version, l.operator == ">=", u.version, u.operator == "<=", "", "")
+//@ spec upperIv(u constraint) interval = mk(interval, "", false, u.version, u.operator == "<=", "", "")
+//@ spec lowerIv(l constraint) interval = mk(interval, l.version, l.operator == ">=", "", false, "", "")
+//@ func pairAlternatingBounds
+//@   loop 1 invariant content: forall i int :: forall j int :: 0 <= i && i < j && j <= rangeindex && isLower(constraints[i]) && isUpper(constraints[j]) && (forall k int :: i < k && k < j ==> !isLower(constraints[k]) && !isUpper(constraints[k])) ==> (exists m int :: 0 <= m && m < len(intervals) && intervals[m] == pairIv(constraints[i], constraints[j]))
+//@   loop 1 invariant seenBound == (exists k int :: 0 <= k && k <= rangeindex && (isLower(constraints[k]) || isUpper(constraints[k])))
+//@   loop 1 invariant pending != nil ==> (exists p int :: 0 <= p && p <= rangeindex && isLower(constraints[p]) && pending.operator == constraints[p].operator && pending.version == constraints[p].version && (forall k int :: p < k && k <= rangeindex ==> !isLower(constraints[k]) && !isUpper(constraints[k])))
+//@   loop 1 invariant lastWasUpper == (seenBound && pending == nil)
+//@   loop 1 invariant pending == nil && seenBound ==> (exists u int :: 0 <= u && u <= rangeindex && isUpper(constraints[u]) && (forall k int :: u < k && k <= rangeindex ==> !isLower(constraints[k]) && !isUpper(constraints[k])))
+//@   loop 1 invariant forall i int :: forall j int :: 0 <= i && i < j && j <= rangeindex && (isLower(constraints[i]) || isUpper(constraints[i])) && (isLower(constraints[j]) || isUpper(constraints[j])) && (forall k int :: i < k && k < j ==> !isLower(constraints[k]) && !isUpper(constraints[k])) ==> isLower(constraints[i]) != isLower(constraints[j])
+//@   ensures no-bounds: (forall i int :: 0 <= i && i < len(constraints) ==> !isLower(constraints[i]) && !isUpper(constraints[i])) ==> !result1   [C04]
+//@   loop 1 invariant content: forall j int :: 0 <= j && j <= rangeindex && isUpper(constraints[j]) && (forall k int :: 0 <= k && k < j ==> !isLower(constraints[k]) && !isUpper(constraints[k])) ==> (exists m int :: 0 <= m && m < len(intervals) && intervals[m] == upperIv(constraints[j]))
+//@   ensures pairs: result1 ==> (forall i int :: forall j int :: 0 <= i && i < j && j < len(constraints) && isLower(constraints[i]) && isUpper(constraints[j]) && (forall k int :: i < k && k < j ==> !isLower(constraints[k]) && !isUpper(constraints[k])) ==> (exists m int :: 0 <= m && m < len(result0) && result0[m] == pairIv(constraints[i], constraints[j])))   [C04] using content
+//@   ensures leading-upper: result1 ==> (forall j int :: 0 <= j && j < len(constraints) && isUpper(constraints[j]) && (forall k int :: 0 <= k && k < j ==> !isLower(constraints[k]) && !isUpper(constraints[k])) ==> (exists m int :: 0 <= m && m < len(result0) && result0[m] == upperIv(constraints[j])))   [C04] using content
+//@   ensures trailing-lower: result1 ==> (forall i int :: 0 <= i && i < len(constraints) && isLower(constraints[i]) && (forall k int :: i < k && k < len(constraints) ==> !isLower(constraints[k]) && !isUpper(constraints[k])) ==> (exists m int :: 0 <= m && m < len(result0) && result0[m] == lowerIv(constraints[i])))   [C04] using content
+//@   ensures alternating-ok: (exists b int :: 0 <= b && b < len(constraints) && (isLower(constraints[b]) || isUpper(constraints[b]))) && !result1 ==> (exists i int :: exists j int :: 0 <= i && i < j && j < len(constraints) && (isLower(constraints[i]) || isUpper(constraints[i])) && isLower(constraints[i]) == isLower(constraints[j]) && isUpper(constraints[i]) == isUpper(constraints[j]) && (forall k int :: i < k && k < j ==> !isLower(constraints[k]) && !isUpper(constraints[k])))   [C04]
+//@   ensures two-lower: (exists i int :: exists j int :: 0 <= i && i < j && j < len(constraints) && isLower(constraints[i]) && isLower(constraints[j]) && (forall k int :: i < k && k < j ==> !isLower(constraints[k]) && !isUpper(constraints[k]))) ==> !result1   [C04]
+//@   ensures two-upper: (exists i int :: exists j int :: 0 <= i && i < j && j < len(constraints) && isUpper(constraints[i]) && isUpper(constraints[j]) && (forall k int :: i < k && k < j ==> !isLower(constraints[k]) && !isUpper(constraints[k]))) ==> !result1   [C04]
